@@ -3,7 +3,7 @@ import itertools
 from .. import core, extract
 from ..core import Suite, onat, b01, ohx, hx
 
-LEAN_TARGETS = ['Uds.Props.C08', 'Uds.Tie.CallGraph']
+LEAN_TARGETS = ['Uds.Props.C08', 'Uds.Props.C08Call', 'Uds.Tie.CallGraph']
 ASSUMPTIONS = [
     'the inner outcome (what the undecorated method body raises/returns) is taken from the real client with all switches on; '
     'the model covers the decorator and the composite helpers; the bodies are modelled under C03/C04',
